@@ -71,7 +71,7 @@ func parMain(args []string) {
 	wg.Wait()
 	diff := 0
 	for i := range indep {
-		if seq[i] != par[i] {
+		if !sameOutcome(seq[i], par[i]) {
 			diff++
 			fmt.Fprintf(out, "DIFF %s\n  seq: %.300s\n  par: %.300s\n", indep[i], seq[i], par[i])
 		}
@@ -141,11 +141,20 @@ func parMain(args []string) {
 		wg.Wait()
 		for g := 0; g < n; g++ {
 			sops++
-			if res[g] != want {
+			if !sameOutcome(res[g], want) {
 				sdiff++
 				fmt.Fprintf(out, "SHARED-DIFF %s\n  seq: %.300s\n  par: %.300s\n", l, want, res[g])
 			}
 		}
 	}
 	fmt.Fprintf(out, "SHARED values=%d reads=%d diffs=%d\n", len(shared), sops, sdiff)
+}
+
+// sameOutcome: equal answers; or both an encoder error — with several map / Dict entries failing for different
+// documented reasons, which one is met first depends on Go's randomised map iteration order, not on concurrency.
+func sameOutcome(a, b string) bool {
+	if a == b {
+		return true
+	}
+	return strings.HasPrefix(a, "ENCERR ") && strings.HasPrefix(b, "ENCERR ")
 }
